@@ -101,6 +101,45 @@ class Native(Stage):
         return out
 
 
+class Single(Stage):
+    """one process: `pvmon <monitor> <args...> --out <report>`"""
+    def __init__(self, name, monitor, args_fn, timeout=3600, note="", tool="native", thorough_only=False):
+        self.name = name
+        self.monitor = monitor
+        self.args_fn = args_fn
+        self.timeout = timeout
+        self.note = note
+        self.tool = tool
+        self.thorough_only = thorough_only
+
+    def jobs(self, ctx):
+        outpath = os.path.join(ctx.rundir, f"{self.name}-0.json")
+        cmd = [ctx.binary, self.monitor] + self.args_fn(ctx) + ["--tier", ctx.tier, "--seed", str(ctx.seed), "--out", outpath]
+        return [("0", cmd, dict(os.environ), outpath, self.timeout)]
+
+
+def shim_path(ctx):
+    """compile the LD_PRELOAD shim when setup has not (or its source is newer)"""
+    import subprocess
+    src = os.path.join(ctx.root, "shim", "rngshim.c")
+    so = os.path.join(ctx.root, "shim", "librngshim.so")
+    if not os.path.exists(so) or os.path.getmtime(so) < os.path.getmtime(src):
+        subprocess.run(["gcc", "-O2", "-fPIC", "-shared", "-o", so, src, "-ldl", "-lpthread"], check=False)
+    return so if os.path.exists(so) else None
+
+
+class WithShim(Native):
+    tool = "native + LD_PRELOAD rng shim"
+
+    def jobs(self, ctx):
+        so = shim_path(ctx)
+        jobs = super().jobs(ctx)
+        if so:
+            for j in jobs:
+                j[2]["LD_PRELOAD"] = so
+        return jobs
+
+
 # -------------------------------------------------------------------------------------------------
 def c01(ctx):
     return [Native("roundtrip", "c01")]
@@ -161,6 +200,14 @@ def c14(ctx):
 
 def c15(ctx):
     return [Native("pae", "c15")]
+
+
+def c16(ctx):
+    return [
+        Native("fresh", "c16", args=["--part", "fresh"], note="Part A: random fields of N consecutive operations per kind logged to run/C16/<tier>/c16-events-*.bin"),
+        Single("offline-uniqueness-check", "c16check", lambda c: [c.rundir], note="offline checker over the event logs of all shards: sorted merge, no random field may repeat"),
+        WithShim("faults", "c16", args=["--part", "faults"], shards=4, quick_shards=4, note="Part B/C: fail-from-k and short-read-at-k at every OS draw index, fed bytes must reappear (getrandom backends v1-v4)"),
+    ]
 
 
 PROPS = {
@@ -294,5 +341,14 @@ PROPS = {
         "technique": "runtime differential and injectivity monitor (collision table) for the PAE encoder",
         "stages": c15,
         "floor": {"quick": 20000, "thorough": 300000},
+    },
+    "C16": {
+        "level": "fault_enumeration",
+        "level_text": "Part A (histories): per backend and operation kind thousands (thorough: 10^5) of consecutive operations with identical key and message; the random field of each output (nonce, salt, ephemeral key / RSA-KEM ciphertext, ECDSA r, PSS signature, generated key) is logged and an offline checker over the logs of all shards proves no value repeats, none is constant, and consecutive outputs differ. Part B (fault sequences, getrandom backends): an LD_PRELOAD shim at the OS boundary counts the draws of each operation and then fails every draw index in turn (and injects a legal short read at every index); an operation that saw a failed draw must return Err and produce nothing. Part C: bytes fed through the shim must reappear as the nonce / salt / key, so the field really is the OS randomness.",
+        "level_note": "Trusted: the shim (interposes getrandom(3) and syscall(SYS_getrandom); per-thread; counts tell whether an injected fault was actually reached - unreached indices are reported, not counted as covered). aws-lc and libsodium draw through their own C code and abort on entropy failure: Part B does not apply to them (the property restricts it to the getrandom backends). Ed25519 / RFC 6979 signatures carry no randomness.",
+        "technique": "event-log uniqueness checker over operation histories + fault injection at every OS RNG draw via LD_PRELOAD shim",
+        "stages": c16,
+        "floor": {"quick": 100000, "thorough": 1000000},
+        "required_classes": ["fail-closed.err", "fed-bytes-observed-in-output", "short-read.survived"],
     },
 }
